@@ -8,6 +8,7 @@ package hsmall
 // exhaustively by shape. Thorough adds fixed large shapes is left to the real-constant harness (C02).
 
 import (
+	"context"
 	"fmt"
 	"sort"
 	"strings"
@@ -97,18 +98,41 @@ type form struct {
 	name  string
 	f     frac.Fraction
 	evict func()
+	ctx   context.Context // nil: context.Background()
+}
+
+// evictCtx is a request context whose Done() runs a cleaning pass of the fraction's caches: the store code polls
+// ctx.Done() between the steps of one request, so blocks are evicted INSIDE the request, between two accesses.
+type evictCtx struct {
+	context.Context
+	cl *cache.Cleaner
+}
+
+func (c evictCtx) Done() <-chan struct{} {
+	st := cache.CleanStat{}
+	c.cl.Cleanup(&st)
+	return nil
+}
+
+// answerCtx is the request context of the current answer() call (the harness runs one shape per goroutine, so it
+// is passed explicitly through formCtx).
+func formCtx(f form) context.Context {
+	if f.ctx != nil {
+		return f.ctx
+	}
+	return context.Background()
 }
 
 type c03Req struct {
-	Kind     string   `json:"kind"` // search | hist | agg | fetch
-	Query    string   `json:"query,omitempty"`
-	From     uint64   `json:"from,omitempty"`
-	To       uint64   `json:"to,omitempty"`
-	Asc      bool     `json:"asc,omitempty"`
-	Limit    int      `json:"limit,omitempty"`
-	Interval uint64   `json:"interval,omitempty"`
-	Agg      string   `json:"agg,omitempty"`
-	FetchIdx []int    `json:"fetch_idx,omitempty"`
+	Kind     string `json:"kind"` // search | hist | agg | fetch
+	Query    string `json:"query,omitempty"`
+	From     uint64 `json:"from,omitempty"`
+	To       uint64 `json:"to,omitempty"`
+	Asc      bool   `json:"asc,omitempty"`
+	Limit    int    `json:"limit,omitempty"`
+	Interval uint64 `json:"interval,omitempty"`
+	Agg      string `json:"agg,omitempty"`
+	FetchIdx []int  `json:"fetch_idx,omitempty"`
 }
 
 type c03Case struct {
@@ -219,7 +243,11 @@ func init() {
 // answer runs one request on one fraction form; a panic in the store code is an answer too (an error), so
 // that it is reported with its shape and request instead of killing the run.
 func answer(f frac.Fraction, docs []refdb.Doc, req c03Req) (res string, err error) {
-	if p := vlib.Catch(func() { res, err = answer0(f, docs, req) }); p != nil {
+	return answerCtx(context.Background(), f, docs, req)
+}
+
+func answerCtx(ctx context.Context, f frac.Fraction, docs []refdb.Doc, req c03Req) (res string, err error) {
+	if p := vlib.Catch(func() { res, err = answer0(ctx, f, docs, req) }); p != nil {
 		msg := fmt.Sprint(p)
 		if i := strings.IndexByte(msg, '\n'); i > 0 {
 			msg = msg[:i]
@@ -229,7 +257,7 @@ func answer(f frac.Fraction, docs []refdb.Doc, req c03Req) (res string, err erro
 	return res, err
 }
 
-func answer0(f frac.Fraction, docs []refdb.Doc, req c03Req) (string, error) {
+func answer0(ctx context.Context, f frac.Fraction, docs []refdb.Doc, req c03Req) (string, error) {
 	switch req.Kind {
 	case "search", "hist", "agg":
 		pq := c03Queries[req.Query]
@@ -240,7 +268,7 @@ func answer0(f frac.Fraction, docs []refdb.Doc, req c03Req) (string, error) {
 		if req.Kind == "agg" {
 			p.AggQ = []processor.AggQuery{aggQuery(req.Agg)}
 		}
-		qpr, err := vfrac.Search(f, p)
+		qpr, err := vfrac.SearchCtx(ctx, f, p)
 		if err != nil {
 			return "", err
 		}
@@ -251,7 +279,7 @@ func answer0(f frac.Fraction, docs []refdb.Doc, req c03Req) (string, error) {
 		for _, i := range req.FetchIdx {
 			ids = append(ids, vfrac.SeqID(docs[i].ID))
 		}
-		res, err := vfrac.Fetch(f, ids)
+		res, err := vfrac.FetchCtx(ctx, f, ids)
 		if err != nil {
 			return "", err
 		}
@@ -387,15 +415,17 @@ func runShape(r *vlib.Run, env *vfrac.Env, s c03Shape, only *c03Req) {
 	info := *sealed.Info()
 	tiny := cache.NewCleaner(1, nil)
 	tiny2 := cache.NewCleaner(1, nil)
+	tiny3 := cache.NewCleaner(1, nil)
 	evict := func(cl *cache.Cleaner) func() {
 		return func() { st := cache.CleanStat{}; cl.Cleanup(&st) }
 	}
 	forms := []form{
-		{"sealed-preloaded", sealed, nil},
-		{"reopened-header", env.Reopen(a.BaseFileName, nil, cfg, nil), nil},
-		{"reopened-cachedinfo", env.Reopen(a.BaseFileName, &info, cfg, nil), nil},
-		{"reopened-header-tinycache", env.Reopen(a.BaseFileName, nil, cfg, tiny), evict(tiny)},
-		{"reopened-cachedinfo-tinycache", env.Reopen(a.BaseFileName, &info, cfg, tiny2), evict(tiny2)},
+		{"sealed-preloaded", sealed, nil, nil},
+		{"reopened-header", env.Reopen(a.BaseFileName, nil, cfg, nil), nil, nil},
+		{"reopened-cachedinfo", env.Reopen(a.BaseFileName, &info, cfg, nil), nil, nil},
+		{"reopened-header-tinycache", env.Reopen(a.BaseFileName, nil, cfg, tiny), evict(tiny), nil},
+		{"reopened-cachedinfo-tinycache", env.Reopen(a.BaseFileName, &info, cfg, tiny2), evict(tiny2), nil},
+		{"reopened-header-evicted-inside-requests", env.Reopen(a.BaseFileName, nil, cfg, tiny3), nil, evictCtx{context.Background(), tiny3}},
 	}
 	for i, q := range reqs {
 		r.Add("evaluations", int64(len(forms)+1))
@@ -408,7 +438,7 @@ func runShape(r *vlib.Run, env *vfrac.Env, s c03Shape, only *c03Req) {
 			r.Violation(sig("vs-refdb", "active"), c, fmt.Sprintf("got  %s\nwant %s", activeAns[i], want))
 		}
 		for _, f := range forms {
-			ans, err := answer(f.f, docs, q)
+			ans, err := answerCtx(formCtx(f), f.f, docs, q)
 			if err != nil {
 				ans = "ERROR: " + err.Error()
 			}
@@ -506,7 +536,7 @@ func TestVerifC03(t *testing.T) {
 	})
 	ev := r.Get("evaluations")
 	r.Finish(t, "model_checking",
-		"under scaled block constants (4 IDs/block, 4 LIDs/block, 64-byte token blocks): every corpus shape n=1..13 x hot-token postings p=0..9 x arrival order {asc,desc,interleaved} x bulk split {1,2,per-doc}, x skip-sort on/off, with dictionary size/token length/zstd level rotating (thorough: all zstd levels crossed), plus all dictionary sizes 1..12 x token lengths 5..8, plus n=4..13 with 4 or all documents per timestamp (equal-MID runs across ID-block borders; two per timestamp otherwise); each answered by 6 forms (active, sealed-preloaded, reopened via header, reopened via cached info, both reopened forms with a 1-byte cache budget evicted after every request); requests: 14 queries x orders x limits, time borders at every MID, histograms, 6 aggregation kinds, fetch lists. distinct_nontrivial = distinct corpus shapes",
+		"under scaled block constants (4 IDs/block, 4 LIDs/block, 64-byte token blocks): every corpus shape n=1..13 x hot-token postings p=0..9 x arrival order {asc,desc,interleaved} x bulk split {1,2,per-doc}, x skip-sort on/off, with dictionary size/token length/zstd level rotating (thorough: all zstd levels crossed), plus all dictionary sizes 1..12 x token lengths 5..8, plus n=4..13 with 4 or all documents per timestamp (equal-MID runs across ID-block borders; two per timestamp otherwise); each answered by 7 forms (active, sealed-preloaded, reopened via header, reopened via cached info, both reopened forms with a 1-byte cache budget evicted after every request, and a reopened form whose caches are evicted INSIDE every request at each of its context polls); requests: 14 queries x orders x limits, time borders at every MID, histograms, 6 aggregation kinds, fetch lists. distinct_nontrivial = distinct corpus shapes",
 		map[string]any{
 			"states":                        r.Get("corpora"),
 			"transitions":                   ev,
